@@ -190,6 +190,7 @@ PURE_CALLS = {
     'id', 'time', 'current_thread', 'get_ident', 'deque', 'defaultdict', 'chain', 'attrgetter', 'iter', 'zip', 'map',
     'filter', 'reversed', 'abs', 'ord', 'chr', 'format', 'super', 'print', 'vars', 'dir', 'object', 'RLock', 'Lock',
     '_exc_info', 'exc_info', 'format_exc', 'uuid', 'uuid4', 'getpid', 'current_process', 'isfunction', 'ismethod',
+    'suppress',
 }
 PURE_METHODS = {
     'append', 'appendleft', 'extend', 'add', 'clear', 'copy', 'get', 'items', 'keys', 'values', 'startswith',
@@ -197,6 +198,7 @@ PURE_METHODS = {
     'update', 'discard', 'split', 'rsplit', 'splitlines', 'replace', 'count', 'insert', 'sort', 'reverse', 'title',
     'isdigit', 'partition', 'rpartition', 'set', 'is_set', 'isSet', 'wait', 'acquire', 'release', 'fileno', 'timetuple',
     'hexdigest', 'digest', 'union', 'difference', 'intersection', 'encode_errors', 'tobytes', 'total_seconds',
+    'suppress',
 }
 LOOKUP_METHODS = {'remove': ('ValueError', 'KeyError'), 'pop': ('IndexError', 'KeyError'), 'popleft': ('IndexError',), 'index': ('ValueError',)}
 
